@@ -6,7 +6,7 @@
    A site of Gen/Sites.v that has no entry here (new code, or an edited statement: the key contains the
    statement text) makes `sites_discharged` fail.  Use coq/Gen/Sites.lines.txt to locate a key. *)
 From Coq Require Import String List Bool Arith.
-From RV Require Import Gen.Sites Model.Base Model.Xq Proofs.Xq.
+From RV Require Import Gen.Sites Gen.Totality Model.Base Model.Xq Model.Totality Proofs.Xq Proofs.Totality.
 Import ListNotations.
 Local Open Scope string_scope.
 
@@ -41,7 +41,7 @@ Definition ledger : list (site * lclass) := [
   (mk_site "parser/filter.rs" "find_filter_with_primitives" KUnwrap "link.tag_name().unwrap()" 0, Reviewed "the node comes from doc.links (element_by_id) or from HrefIter, which hold elements only; an element has a tag name");
   (mk_site "parser/filter.rs" "convert_color_matrix_kind" KUnwrap "PositiveF32::new(n).unwrap()" 0, Guard _ bound01_positive);
   (mk_site "parser/filter.rs" "convert_component_transfer" KUnwrap "match child.tag_name().unwrap()" 0, Reviewed "children are filtered with is_element()");
-  (mk_site "parser/filter.rs" "convert_convolve_matrix" KUnwrap "divisor: NonZeroF32::new(divisor).unwrap()" 0, Reviewed "NonZeroF32::new rejects exactly approx_eq_ulps(0, 4); the same test returned None a few lines above and divisor is unchanged");
+  (mk_site "parser/filter.rs" "convert_convolve_matrix" KUnwrap "divisor: NonZeroF32::new(divisor).unwrap()" 0, Guard _ convolve_divisor_guard);
   (mk_site "parser/filter.rs" "convert_morphology" KUnwrap "let mut radius_x = PositiveF32::new(scale.width()).unwrap()" 0, Guard _ size_components_positive);
   (mk_site "parser/filter.rs" "convert_morphology" KUnwrap "let mut radius_y = PositiveF32::new(scale.height()).unwrap()" 0, Guard _ size_components_positive);
   (mk_site "parser/image.rs" "convert_inner" KUnwrap "let mut path = Path::new_simple(Arc::new(tiny_skia_path::PathBuilder::from_rect( rect.to_rect(), ))) .unwrap()" 0, Reviewed "PathBuilder::from_rect of a NonZeroRect always yields a non-empty path with a valid bounding box");
